@@ -183,7 +183,7 @@ def run(ctx):
                               "kind": ["moderate", "smooth", "twins", "flat"][cid % 4], "alphas": alphas if n < 4 else alphas[1::2],
                               "forests": [f.describe() for f in fs[i:i + chunk]], "cluster_sizes": bool(cid % 3 == 0)})
                 cid += 1
-    nrand = 60 if quick else 1500
+    nrand = 60 if quick else 8000
     for i in range(nrand):
         n = int(rng.integers(4, 13))
         op = [0.0, 0.2, 0.01][i % 3]
